@@ -29,6 +29,7 @@ def configs(ctx):
                         if fix in ("alpha", "alpha+gamma") and not double:
                             p["nmatch"] = 0
                         p["fix"] = fix
+                        p["match_swap"] = bool(len(out) % 2)   # matching tuples listed upstream-first / downstream-first in turn
                         if nta == 2 and rng.random() < 0.5:
                             p["ta_reversed"] = True
                         if nta and not front and rng.random() < 0.4:
@@ -38,12 +39,16 @@ def configs(ctx):
                             p["nmatch"] = 0 if double else p["nmatch"]
                         p["fix_var"] = float(rng.choice([0.0, 1e-12]))
                         out.append(p)
+                        if front and not double:   # a matching pair across the splice, listed upstream-first AND downstream-first
+                            q = dict(p); q["match_swap"] = not p["match_swap"]
+                            out.append(q)
     # mirror of the front-only family: the splice lies upstream of ALL reference sections and a matching pair bridges it (single ended)
     for rep in range(reps):
         for fix in (None, "gamma", "dalpha"):
             p = calib.random_params(rng, False, quick=True, nx=int(rng.integers(28, 40)), nta=1, noise=0.0, nt=int(rng.integers(1, 4)), nmatch=1, back_only=True,
                                     span=float(rng.choice([10.0, 100.0, 400.0])), nbath=int(rng.integers(2, 4)))
             p["fix"], p["fix_var"] = fix, 0.0
+            p["match_swap"] = bool(len(out) % 2)
             out.append(p)
     return out
 
@@ -87,14 +92,11 @@ def run_params(ctx, plist):
         ctx.case(("c03", repr(sorted(p.items()))), nontrivial=True, sample=p2)
         ctx.count(key_of(p, "cfg"))
         try:
-            from vlib.props.c07 import capture_run
-            out, rec = capture_run(case)
-            Xd = rec["X"].toarray() * np.sqrt(np.abs(rec["w"]))[:, None]
-            Xd = Xd / np.maximum(np.linalg.norm(Xd, axis=0), 1e-300)
-            free_null = len(f.trans_att) if (f.double and p["fix"] not in ("alpha", "alpha+gamma")) else 0
-            if np.linalg.matrix_rank(Xd, tol=1e-9) < Xd.shape[1] - free_null:
-                ctx.count("skipped-not-identifiable")  # e.g. a single bath temperature between two splices: the premise 'enough information' fails
+            from vlib import refdesign
+            if not refdesign.identifiable(case):   # the premise 'enough information' is decided on the generator's layout (e.g. a single bath temperature between two splices fails it)
+                ctx.count("skipped-not-identifiable")
                 continue
+            out = case.run()
         except Exception as ex:
             ctx.violation(key_of(p, f"raised-{type(ex).__name__}"), f"accepted option combination raised {type(ex).__name__}: {str(ex)[:150]}", p)
             continue
